@@ -8,6 +8,7 @@
 #include "numeric.h" /* Using:  if(FLOAT_EQ(NumOne, NumTwo));*/
 #include "metricspace.h"
 #include "statistic.h"
+#include "verif_hooks.h"
 #include <math.h>
 #include <pthread.h>
 #include <stdarg.h>
@@ -55,6 +56,7 @@ void random_kfold_group_generator(matrix *gid,
         continue;
     }
   }
+  VERIF_CV("groups", (size_t)(*srand_init), ngroups, nobj, gid);
 }
 
 void kfold_group_train_test_split(matrix *x,
@@ -109,6 +111,7 @@ void kfold_group_train_test_split(matrix *x,
           for(n = 0; n < y->col; n++){
             y_train->data[k][n] = y->data[a][n];
           }
+          VERIF_CV("train", group_id, (size_t)a, k, gid);
           k++;
         }
         else{
@@ -126,6 +129,7 @@ void kfold_group_train_test_split(matrix *x,
           for(n = 0; n < y->col; n++){
             y_test->data[l][n] = y->data[a][n];
           }
+          VERIF_CV("test", group_id, (size_t)a, l, gid);
           l++;
         }
         else{
@@ -630,6 +634,7 @@ void BootstrapRandomGroupsCV(MODELINPUT *input,
           arg[th].srand_init = (size_t) group + mx->row + my->col + iterations + th + iterations_;
           NewMatrix(&arg[th].predicted_y, my->row, scol);
           NewUIVector(&arg[th].predictioncounter, my->row);
+          VERIF_CV("create", th, iterations_, arg[th].srand_init, NULL);
           if(algo == _PLS_ || algo == _PLS_DA_){
             pthread_create(&threads[th], NULL, PLSRandomGroupCVModel, (void*) &arg[th]);
           }
@@ -652,10 +657,12 @@ void BootstrapRandomGroupsCV(MODELINPUT *input,
         /* the process and all threads before the threads have completed.   */
         for(th = 0; th < nthreads; th++){
           pthread_join(threads[th], NULL);
+          VERIF_CV("join", th, iterations_, 0, NULL);
         }
 
         /* finalize thread outputs and free the memory.....*/
         for(th = 0; th < nthreads; th++){
+          VERIF_CV("merge", th, iterations_, 0, NULL);
           for(i = 0; i < arg[th].predicted_y->row; i++){
             for(j = 0; j < arg[th].predicted_y->col; j++){
               sum_ypredictions->data[i][j] += arg[th].predicted_y->data[i][j];
